@@ -761,12 +761,108 @@ def gen_clsbig(rng):
   return {'family': 'clsbig', 'config': config, 'input': inp}
 
 
+# ---------------------------------------------------------------------------
+# fourth audit round: input classes drawn from a SIDE stream (the main stream of
+# every family is untouched, so the cases of the earlier rounds stay the same)
+# ---------------------------------------------------------------------------
+
+VALUEACC_METRICS = {
+    # (concat mode, number of inputs) -> names of the metric functions
+    ('concat', 1): ['sum', 'len', 'max', 'mean'],
+    ('concat', 2): ['dot', 'len2', 'sumdiff'],
+    ('append', 1): ['nbatches', 'total', 'maxlen'],
+    ('append', 2): ['nbatches2', 'total2'],
+}
+SCORE_FNS = ['abs', 'neg', 'half']
+
+
+def thr_inject_repeats(case, rng):
+  """Turns a thresholded-retrieval case into one whose rankings repeat an id
+  (several chunks of one document, a merged candidate list): 1-3 extra copies of
+  a relevant or an irrelevant id in one or several rows, at any position, each
+  with its own probability (drawn from the values that occur in the case, the
+  thresholds, 0 and 1; or the probability of the first occurrence)."""
+  cfg, inp = case['config'], case['input']
+  y_true, y_pred, y_prob = inp['y_true'], inp['y_pred'], inp['y_prob']
+  n = len(y_true)
+  pool_p = sorted({0.0, 1.0, *cfg['thresholds'],
+                   *(v for row in (y_prob or []) for v in row)})
+  which = rng.choice(['relevant', 'relevant', 'relevant', 'irrelevant', 'any'])
+  for i in sorted(rng.sample(range(n), rng.randint(1, n))):
+    t, p = y_true[i], y_pred[i]
+    pr = y_prob[i] if y_prob is not None else None
+    for _ in range(rng.choice([1, 1, 2, 3])):
+      want = which if which != 'any' else rng.choice(['relevant', 'irrelevant'])
+      rel = [x for x in p if x in t]
+      irr = [x for x in p if x not in t]
+      if want == 'relevant' and not rel:
+        # the ranking holds no relevant id yet: retrieve one first
+        pos = rng.randint(0, len(p))
+        p.insert(pos, rng.choice(t))
+        if pr is not None:
+          pr.insert(pos, rng.choice(pool_p))
+        rel = [p[pos]]
+      item = rng.choice(rel if want == 'relevant' else (irr or rel))
+      first = p.index(item)
+      pos = rng.choice([first + 1, len(p), rng.randint(0, len(p))])
+      p.insert(pos, item)
+      if pr is not None:
+        first_p = pr[first]  # (pr has not received the copy yet)
+        pr.insert(pos, first_p if rng.random() < 0.2 else rng.choice(pool_p))
+  cfg['repeated_ids'] = which
+  return case
+
+
+def gen_stats_configured(rng):
+  """Accumulators of rolling_stats with a NON-DEFAULT configuration, to be run
+  through the one-shot call, add() + result() and as_agg_fn()(batch):
+  ValueAccumulator (concat_fn None / list concat / array concat, metric_fns
+  None / one callable / a dict of callables, 1-2 inputs) and Mean /
+  MeanAndVariance / Var with a batch_score_fn."""
+  if rng.random() < 0.6:
+    nargs = rng.choice([1, 1, 2])
+    concat = rng.choice([None, 'list', 'list', 'array'])
+    names = VALUEACC_METRICS[('concat' if concat else 'append', nargs)]
+    r = rng.random()
+    if r < 0.15:
+      metric = None
+    elif r < 0.6:
+      metric = rng.choice(names)
+    else:
+      metric = sorted(rng.sample(names, rng.randint(1, len(names))))
+    batches = []
+    for _ in range(rng.choice([1, 2, 3, 4])):
+      m = rng.randint(1, 7)
+      batches.append([[rng.randint(-50, 50) for _ in range(m)] for _ in range(nargs)])
+    return {'family': 'stats', 'sub': 'valueacc',
+            'config': {'concat': concat, 'metric': metric, 'nargs': nargs},
+            'input': {'batches': batches}}
+  sub = rng.choice(['mean', 'meanvar', 'meanvar', 'var'])
+  p_nan = rng.choice([0.0, 0.0, 0.15, 0.4])
+  return {'family': 'stats', 'sub': sub, 'config': {'score': rng.choice(SCORE_FNS)},
+          'input': {'batches': _numeric_batches(rng, p_nan)}}
+
+
+# share of the cases of a family that is drawn from the side stream
+SIDE_SHARE = {'thr': 0.22, 'stats': 0.15}
+
+
 GENERATORS = {'clsbig': gen_clsbig, 'cls': gen_cls, 'retr': gen_retr, 'thr': gen_thr,
               'stats': gen_stats, 'statsinf': gen_stats_inf, 'misc': gen_misc}
 
 
 def gen(family, rseed, index):
-  case = GENERATORS[family](_rng(family, rseed, index))
+  side = None
+  if family in SIDE_SHARE:
+    side = _rng(family + ':round4', rseed, index)
+    if side.random() >= SIDE_SHARE[family]:
+      side = None
+  if side is not None and family == 'stats':
+    case = gen_stats_configured(side)
+  else:
+    case = GENERATORS[family](_rng(family, rseed, index))
+    if side is not None and family == 'thr':
+      case = thr_inject_repeats(case, side)
   case['src'] = {'rseed': rseed, 'index': index}
   if case['family'] != family:
     case['src']['generator'] = family
